@@ -17,7 +17,7 @@ def polar_modes(b, n):
 def chk_polar(inp):
     """orthonormal, piston-free, diagonalising the Kolmogorov covariance on the native polar grid; variances positive, non-increasing, tip = tilt"""
     seen = {}
-    for (ri, nr, nf) in ((0.25, 12, 15), (0.25, 12, 24), (0.1, 16, 20), (0.5, 10, 12), (0.25, 12, 15)):
+    for (ri, nr, nf) in ((0.25, 12, 15), (0.25, 12, 24), (0.1, 16, 20), (0.5, 10, 12), (0.25, 12, 15), (0.3, 9, 12), (0.2, 13, 18), (0.4, 15, 14)):
         b = KL.gkl_basis(ri, nr, 5 * nr, nfunc=nf, stf="kolstf")
         K = polar_modes(b, nf)
         npp = 5 * nr
